@@ -44,6 +44,7 @@ type vfConcCase struct {
 	CostYield   int       `json:"cost_cb_yields"`   // Config.Cost yields n times
 	CostSleepUs int       `json:"cost_cb_sleep_us"` // ... or sleeps (virtual)
 	EvictYield  int       `json:"evict_cb_yields"`
+	ExitYield   int       `json:"exit_cb_yields"`
 	ShouldUpd   bool      `json:"should_update_fn"`
 	Progs       [][]vfCOp `json:"programs"`
 }
@@ -120,7 +121,12 @@ func vfConcExec[K Key](c *vfConcCase, mk func(i int) K, idxOf func(K) int) *vfCo
 			}
 		},
 		OnReject: func(it *Item[uint64]) { logEv(vfCBReject, it.Value) },
-		OnExit:   func(v uint64) { logEv(vfCBExit, v) },
+		OnExit: func(v uint64) {
+			logEv(vfCBExit, v)
+			for i := 0; i < c.ExitYield; i++ {
+				runtime.Gosched() // widens the window between "reported as gone" and whatever the caller does next
+			}
+		},
 	}
 	if c.CostYield > 0 || c.CostSleepUs > 0 {
 		conf.Cost = func(v uint64) int64 {
@@ -650,7 +656,8 @@ func vfConcRunTyped(c *vfConcCase) *vfConcHist {
 	case "byte":
 		return vfConcExec(c, func(i int) byte { return byte(i + 1) }, func(k byte) int { return int(k) - 1 })
 	}
-	return vfConcExec(c, func(i int) uint64 { return uint64(i + 1) }, func(k uint64) int { return int(k) - 1 })
+	// keys 8.. share their map shard (hash % 256) with keys 0..7
+	return vfConcExec(c, func(i int) uint64 { return uint64(1 + i%8 + 256*(i/8)) }, func(k uint64) int { return int((k-1)%256) + 8*int((k-1)/256) })
 }
 
 type vfConcProfile struct {
@@ -698,6 +705,7 @@ func vfGenConcCase(t *rapid.T, p *vfConcProfile, maxG int) *vfConcCase {
 		c.CostSleepUs = rapid.SampledFrom([]int{1, 100, 1000}).Draw(t, "costsleep")
 	}
 	c.EvictYield = rapid.IntRange(0, 3).Draw(t, "evictyield")
+	c.ExitYield = rapid.SampledFrom([]int{0, 0, 1, 3, 10}).Draw(t, "exityield")
 	c.ShouldUpd = rapid.IntRange(0, 5).Draw(t, "shouldupd") == 0
 	g := rapid.IntRange(2, maxG).Draw(t, "goroutines")
 	var kinds []string
